@@ -325,6 +325,7 @@ func init() {
 			repo: true,
 			covers: []coverPlan{
 				structCover("reenter", fam.Reenter, deferBoth, false, 12, 200, 1, 0),
+				structCover("groupcycle", fam.GroupCycle, deferBoth, false, 20, 150, 1, 0),
 				pathsCover(deferBoth, 30, 400, 0),
 				digraphCover("digraphs-req", "req", deferBoth, 120, 2500),
 				digraphCover("digraphs-opt", "opt", deferBoth, 50, 1200),
@@ -365,6 +366,7 @@ func init() {
 			covers: []coverPlan{
 				randCover("reject", tweak(small, func(f *fam.Features) { f.Types = 2; f.PNamed = 0.05; f.Ctors = 3; f.Decs = 1; f.PInvalid = 0.7 }), rec, 40, 400, 0),
 				pathsCover(rec, 30, 400, 0, func(f *fam.Features) { f.PInvalid = 0.7 }),
+				structCover("groupcycle", fam.GroupCycle, rec, false, 16, 150, 2, 0),
 				digraphCover("digraphs-req", "req", rec, 100, 1500),
 				digraphCover("digraphs-grp", "grp", rec, 50, 800),
 				structCover("shadow", fam.Shadow, rec, false, 60, 0, 2, 0),
@@ -441,13 +443,15 @@ func init() {
 		run: genericRun(stagePlan{
 			repo: true,
 			covers: []coverPlan{
-				structCover("groups", fam.Groups, rec, false, 30, 40, 2, 0),
-				wideCover("groups", fam.Groups, rec, false, 120, 0),
+				structCover("groups", fam.Groups, rec, false, 24, 40, 2, 0),
+				wideCover("groups", fam.Groups, recBoth, false, 100, 1),
 				wideCover("softnest", fam.SoftNest, rec, false, 60, 0),
+				structCover("groupcycle", fam.GroupCycle, rec, false, 10, 100, 2, 0),
 				wideCover("keys", fam.Keys, rec, false, 100, 0),
-				randCover("groups-rand", tweak(small, groupy), rec, 60, 500, 0),
+				randCover("groups-rand", tweak(small, groupy), rec, 40, 400, 0),
+				randCover("groups-after-failures", tweak(small, groupy), recBoth, 40, 400, 1),
 			},
-			traces: stdTraces("groups", tweak(medium, groupy), 0, stdOpts)})})
+			traces: stdTraces("groups", tweak(medium, groupy), 0.06, stdOpts)})})
 
 	register(&propDef{id: "C11",
 		projection: "bag of every soft group slice, executions caused by soft parameters",
